@@ -717,5 +717,7 @@ RULES.append(("C10.CODEAPI", "the words kind / syllable count / dot count / area
 # rules of other properties re-run under this property's name; resolved by rules/main.py once every module can be
 # imported (the owners import this module themselves)
 DEFERRED_BUNDLES = [
+    {'prop': 'C10', 'tag': 'INT', 'module': 'p_c05', 'only': ('CTOR', 'DIVLESS', 'LIMBS', 'NORMALISE', 'CONSTS'), 'skip': (), 'why': 'the audited panic sites of the numeric core (NUMERIC table: limb vectors are never empty, result vectors are long enough) rest on the lengths these rules decide'},
     {'prop': 'C10', 'tag': 'WRITER', 'module': 'p_c11', 'only': ('ONCE',), 'skip': (), 'why': 'the in-memory writers optimisation writes to'},
+    {'prop': 'C10', 'tag': 'STATE', 'module': 'p_c02', 'only': ('OPTSTATE', 'SLOTS'), 'skip': (), 'why': 'the audited index sites of the vector-backed state are safe because push_stack tests its bound and optimize() hands out only slots below the size it allocates: pre-execution must not panic'},
 ]
